@@ -19,6 +19,7 @@ import SqlglotModel.Proofs.TreeRun
 import SqlglotModel.Proofs.TreeNorm
 import SqlglotModel.Proofs.TreeWalk
 import SqlglotModel.Proofs.TreeRepair
+import SqlglotModel.Proofs.TreeOrder
 import SqlglotModel.Generated.C08
 
 namespace SqlglotModel.Properties.C08
@@ -203,6 +204,7 @@ theorem generated_structure_ok :
     SqlglotModel.Generated.C08.deepcopyLoopShape = true ∧
     SqlglotModel.Generated.C08.replaceChildrenShape = true ∧
     SqlglotModel.Generated.C08.simplifyRepairShape = true ∧
+    SqlglotModel.Generated.C08.hashIteratesSortedKeys = true ∧
     SqlglotModel.Generated.C08.rawClasses = ["identifier", "literal"] := by decide +kernel
 
 /-- `Expr.__init__` skips `_set_parent` for `is_primitive` classes (the model's `cls()` + `set` does not have that
@@ -306,5 +308,61 @@ theorem replace_by_own_child_leaves_husk :
     ((run freeHash 8 empty huskDemo).bind (fun h => opReplace 8 h 0 (.node 1))).map
       (fun h => (getKey "this" (h 2).args, (h 1).parent, (h 1).argKey, getKey "this" (h 0).args, (h 0).parent)) =
       some (some (.one 1), some 2, some "this", some (.one 1), none) := by decide +kernel
+
+/-- `opReplaceRec` extends `opReplace` (it agrees wherever `opReplace` returns a heap) -/
+theorem replaceRec_extends_replace (f : Nat) (h h' : Heap H) (self : Id) (v : Value)
+    (he : opReplace (f + 1) h self v = some h') : opReplaceRec (f + 1) h self v = some h' := by
+  simp only [opReplace] at he
+  simp only [opReplaceRec]
+  cases hp : (h self).parent with
+  | none => simpa [hp] using he
+  | some p =>
+    simp only [hp] at he ⊢
+    by_cases hv : v = .node p
+    · simpa [hv] using he
+    · simp only [hv, if_false] at he ⊢
+      cases hk : (h self).argKey with
+      | none => simpa [hk] using he
+      | some k =>
+        simp only [hk] at he ⊢
+        by_cases hb : (isListValue v && isOne (getKey k (h p).args)) = true
+        · simp [hb] at he
+        · simpa [hb] using he
+
+/-- `replace(list)` on a node that sits in a SCALAR slot replaces the node's parent instead and then clears the node's own
+    pointers — while the replaced-out parent still holds it. Witness: `Tuple([Paren(this=Lit)])`, `Lit.replace([])`:
+    the live tree is consistent (`Tuple.expressions = []`), the `Paren` husk still stores `Lit`, whose `parent` is now
+    `None`: the whole-heap `Links` fails at the husk (exactly as for replace-by-own-child). This is why the branch is
+    outside the theorems (`opReplace` returns `none` there, `Adm` is about `opReplace`); the model function
+    `opReplaceRec` mirrors it and is tied by correspondence; on the real code the root-relative checker covers it. -/
+def huskDemo2 : List Op :=
+  [.new 0 "tuple" false, .new 1 "paren" false, .new 2 "literal" true, .set 2 "this" (.leaf (.str "1")) none true,
+   .set 1 "this" (.node 2) none true, .set 0 "expressions" (.list [.node 1]) none true]
+
+theorem replace_list_in_scalar_slot_leaves_husk :
+    ((run freeHash 8 empty huskDemo2).bind (fun h => opReplaceRec 8 h 2 (.list []))).map
+      (fun h => (getKey "expressions" (h 0).args, getKey "this" (h 1).args, (h 2).parent, (h 1).parent)) =
+      some (some (.many []), some (.one 2), none, none) := by decide +kernel
+
+/-! ### `__hash__` / `==` do not depend on the insertion order of `args` -/
+
+/-- two nodes of the same class whose `args` dicts hold the same entries in ANY order (a permutation of the association
+    list) hash alike — because `__hash__` iterates `sorted(node.args)` -/
+theorem hash_insertion_order_independent (F : HashFns H) (nd nd' : Node H) (ch : Id → Option H)
+    (hc : nd'.cls = nd.cls) (hr : nd'.raw = nd.raw) (hp : nd.args.Perm nd'.args) (hu : KeysUnique nd.args) :
+    hashNode F nd' ch = hashNode F nd ch := hashNode_perm F nd nd' ch hc hr hp hu
+
+/-- witness: iterating the dict in insertion order instead (no `sorted`) makes the hash of a raw-args leaf depend on the
+    order in which its two args were set -/
+def litA : Node HT :=
+  { cls := "literal", raw := true, args := [("this", .leaf (.str "1")), ("is_string", .leaf (.bool true))],
+    parent := none, argKey := none, index := none, hash := none }
+def litB : Node HT :=
+  { cls := "literal", raw := true, args := [("is_string", .leaf (.bool true)), ("this", .leaf (.str "1"))],
+    parent := none, argKey := none, index := none, hash := none }
+
+theorem unsorted_hash_depends_on_insertion_order :
+    hashNodeUnsorted freeHash litA (fun _ => none) ≠ hashNodeUnsorted freeHash litB (fun _ => none) ∧
+    hashNode freeHash litA (fun _ => none) = hashNode freeHash litB (fun _ => none) := by decide +kernel
 
 end SqlglotModel.Properties.C08
